@@ -12,15 +12,20 @@ OUT=${VERIF_OUT:-$PWD}; SUF=${VERIF_BIN_SUFFIX:+.$VERIF_BIN_SUFFIX}
 mkdir -p .work .bin "$OUT/evidence/parts" "$OUT/replays"
 
 build() { # build <cmd> <race:0|1>
-  local cmd=$1 race=$2 out=.bin/$1$SUF flags=()
+  local cmd=$1 race=$2 out=.bin/$1$SUF flags=() ov
   [ "$race" = 1 ] && { flags+=(-race); out=.bin/$1$SUF.race; }
-  (
+  # short global lock: seam generation + overlay file (both idempotent, atomic writes)
+  ov=$( {
     flock 9
     for sg in tools/seam.d/*.sh; do [ -x "$sg" ] && { "$sg" >/dev/null || { echo "INTERNAL: seam generator $sg failed" >&2; exit 2; }; }; done
-    ov=$(python3 tools/overlay.py) || exit 2
+    python3 tools/overlay.py || exit 2
+  } 9>.work/seam.lock ) || return 2
+  # per-output lock: concurrent builds of different binaries run in parallel
+  (
+    flock 8
     go build "${flags[@]}" -tags verif -overlay "$ov" -o "$out" "./cmd/$cmd" 2>&1 | grep -v '^WARNING' >&2
     exit ${PIPESTATUS[0]}
-  ) 9>.work/build.lock
+  ) 8>".work/build.$(basename "$out").lock"
 }
 
 if [ "${1:-}" = build ]; then build "$2" "$([ "${3:-}" = race ] && echo 1 || echo 0)"; exit $?; fi
